@@ -65,13 +65,43 @@ def truth(seg, name, t0, t1):
     return lo, up, q, z
 
 
-def check_segment(name, scale, cfg, acc, only=None, budget=None, rot=0, shift=0j):
+# non-default accuracy options (error is absolute: given relative to the curve's scale; min_depth only ever raised,
+# because a min_depth below the default is a documented way to ask for less protection against symmetric curves)
+LENGTH_OPTS = [None,
+               {'error': 1e-9, 'how': 'keyword'}, {'min_depth': 8, 'how': 'keyword'},
+               {'error': 1e-8, 'min_depth': 6, 'how': 'keyword'}, {'error': 1e-8, 'min_depth': 6, 'how': 'positional'},
+               {'error': 1e-10, 'min_depth': 5, 'how': 'positional'},
+               # an ABSOLUTE error of 1e-3 asked for a curve a thousand units across (not relative to its length)
+               {'error_abs': 1e-3, 'how': 'keyword', 'scale': 1e3}]
+
+
+def call_length(obj, t0, t1, opts, scale):
+    if not opts:
+        return obj.length(t0, t1)
+    e = opts.get('error')
+    e = None if e is None else e * scale
+    if 'error_abs' in opts:
+        e = opts['error_abs']
+    d = opts.get('min_depth')
+    if opts['how'] == 'positional':
+        return obj.length(t0, t1, sp.LENGTH_ERROR if e is None else e, sp.LENGTH_MIN_DEPTH if d is None else d)
+    kw = {}
+    if e is not None:
+        kw['error'] = e
+    if d is not None:
+        kw['min_depth'] = d
+    return obj.length(t0, t1, **kw)
+
+
+def check_segment(name, scale, cfg, acc, only=None, budget=None, rot=0, shift=0j, opts=None):
     seg = AB.make(name, scale, rot=rot, shift=shift)
     kind = type(seg).__name__[0]
     cfgname = 'scipy' if cfg else 'fallback'
     vals = {}
     branch = quad_branch(seg.bpoints()) if kind == 'Q' else kind
     counter = {'n': 0}
+    if opts and not cfg and not budget:
+        budget = 30_000_000
     if budget:
         orig_point = type(seg).point
 
@@ -86,18 +116,23 @@ def check_segment(name, scale, cfg, acc, only=None, budget=None, rot=0, shift=0j
             if only and (t0, t1) not in only:
                 continue
             case = {'what': 'segment', 'shape': name, 'scale': scale, 'config': cfg, 't0': t0, 't1': t1, 'rot': rot, 'shift': core.jz(shift)}
+            if opts:
+                case['opts'] = opts
             counter['n'] = 0
             try:
                 fresh = AB.make(name, scale, rot=rot, shift=shift)       # fresh object: no cache from earlier intervals
-                r = outcome(lambda: fresh.length(t0, t1))
+                r = outcome(lambda: call_length(fresh, t0, t1, opts, scale))
             except Budget:
                 acc.caps_hit['fallback point-evaluation budget %d' % budget] += 1
                 acc.filt('budget')
                 continue
             lo, up, q, z = truth(seg, name, t0, t1)
-            acc.case(case, cls='%s/%s/%s' % (cfgname, branch, 'speed_zero' if z else 'regular'), nontrivial=t0 < t1)
+            acc.case(case, cls='%s/%s/%s' % (cfgname, branch, 'speed_zero' if z else 'regular') if not opts else
+                     'options/%s/%s' % (cfgname, opts['how']), nontrivial=t0 < t1)
             sig = {'kind': kind, 'config': cfgname, 'branch': branch, 'speed_zero_inside': z,
                    'interval': 'full' if (t0, t1) == (0.0, 1.0) else ('empty' if t0 == t1 else 'sub')}
+            if opts:
+                sig['options'] = sorted(k for k in opts if k != 'how')
             if r[0] != 'ok':
                 acc.violation('length_raises', dict(sig, exc=r[1]), case, observed=r)
                 continue
@@ -117,6 +152,11 @@ def check_segment(name, scale, cfg, acc, only=None, budget=None, rot=0, shift=0j
                 continue
             rel = 5e-3 if z else 1e-6
             floor = 1e-13 * scale + 64 * 2.0 ** -52 * abs(shift)
+            if opts and opts.get('error_abs'):
+                floor += 2 * opts['error_abs'] if cfg else opts['error_abs'] * max(1, (counter['n'] + 1) // 2)
+            if opts and opts.get('error'):
+                # the requested absolute error, once per leaf of the fallback's subdivision (counted), once for quad
+                floor += opts['error'] * scale * (max(1, (counter['n'] + 1) // 2) if not cfg else 2)
             if not (lo * (1 - rel) - floor <= v <= up * (1 + rel) + floor):
                 acc.violation('outside_bracket', sig, case, observed=v, expected=[lo, up], detail='rel tol %g' % rel)
             elif q is not None and not abs(v - q) <= rel * max(q, v) + floor:
@@ -154,7 +194,7 @@ def check_paths(cfg, acc):
     cfgname = 'scipy' if cfg else 'fallback'
     for w in PATH_WORDS:
         segs = [AB.make(n, 2.0 ** -6 if not cfg else 1.0) for n in w]
-        p = Path(*segs)
+        p = AB.derive_path(Path(*segs))
         exp = sum(AB.make(n, 2.0 ** -6 if not cfg else 1.0).length() for n in w)
         r = outcome(lambda: p.length())
         case = {'what': 'path', 'word': list(w), 'config': cfg}
@@ -191,8 +231,8 @@ def check_long_paths(cfg, acc):
                 else:
                     segs.append(Line(complex(i, 0), complex(i + 0.5, 1)) if i % 5 else
                                 QuadraticBezier(complex(i, 0), complex(i + 1, 2), complex(i + 2, 0)))
-            p = Path(*segs)
-            exp = sum(s_.length() for s_ in segs)
+            p = AB.derive_path(Path(*segs))
+            exp = sum(AB.fresh_copy(s_).length() for s_ in segs)
             case = {'what': 'long_path', 'n': n, 'kind': kind, 'config': cfg}
             acc.case(case, cls='long_path/%s' % cfgname)
             r = outcome(lambda: p.length())
@@ -219,6 +259,10 @@ def shards(tier, seed):
                 for rot in ROTS:
                     out.append({'what': 'segment', 'config': cfg, 'scale': sc, 'shape': n, 'rot': rot})
         out.append({'what': 'paths', 'config': cfg})
+        # the same paths after loose-accuracy measurements / changed-and-restored module settings / as strict arcs
+        out += [{'what': 'paths', 'config': cfg, 'pprov': pv} for pv in AB.PATH_PROVENANCES
+                if pv in ('measured', 'reversed_twice', 'loosely_measured', 'segments_loosely_measured', 'loosely_measured_reversed_twice',
+                          'strict_arcs', 'module_settings_changed_and_restored')]
     # curves far from the origin (tests that tolerances are relative to the curve, not to its coordinates)
     for n in names():
         if n not in AB.ARCS:
@@ -226,6 +270,16 @@ def shards(tier, seed):
     # the same segments as the library hands them out (derived objects: numpy scalars, warm caches, ...)
     out += AB.provenance_shards(out, tier, lambda d: d['what'] == 'segment' and d['rot'] in (0, 37) and 'shift' not in d and
                                 d['scale'] == (1.0 if d['config'] else 2.0 ** -6))
+    # non-default error / min_depth, keyword and positional
+    for cfg in (False, True):
+        for n in names():
+            for oi in range(1, len(LENGTH_OPTS)):
+                for rot in ((0,) if tier == 'quick' else (0, 37)):
+                    if 'scale' in LENGTH_OPTS[oi]:
+                        if cfg:
+                            out.append({'what': 'segment', 'config': cfg, 'scale': LENGTH_OPTS[oi]['scale'], 'shape': n, 'rot': rot, 'opts': oi})
+                        continue
+                    out.append({'what': 'segment', 'config': cfg, 'scale': 1.0 if cfg else 2.0 ** -6, 'shape': n, 'rot': rot, 'opts': oi})
     return out
 
 
@@ -241,7 +295,7 @@ def run_shard(desc, tier, seed):
         else:
             check_segment(desc['shape'], desc['scale'], desc['config'], acc,
                           budget=None if desc['config'] else tp['budget'], rot=desc.get('rot', 0),
-                          shift=complex(*desc.get('shift', [0, 0])))
+                          shift=complex(*desc.get('shift', [0, 0])), opts=LENGTH_OPTS[desc.get('opts', 0)])
     finally:
         sp._quad_available = old
     return acc
@@ -262,7 +316,7 @@ def finalize(acc):
 
 def space(tier, seed):
     tp = tier_params(tier, seed)
-    return {'shapes': names(), 't_grid': TS, 'pairs': 'all t0 <= t1', 'scales': {'scipy': tp['scipy_scales'], 'fallback': tp['fallback_scales']},
+    return {'length_options': LENGTH_OPTS, 'shapes': names(), 't_grid': TS, 'pairs': 'all t0 <= t1', 'scales': {'scipy': tp['scipy_scales'], 'fallback': tp['fallback_scales']},
             'fallback_point_budget': tp['budget'], 'paths': PATH_WORDS, 'rotations': ROTS}
 
 
@@ -277,10 +331,10 @@ def replay(case):
         elif case['what'] == 'path':
             check_paths(case['config'], acc)
         elif 'tm' in case:
-            check_segment(case['shape'], case['scale'], case['config'], acc, rot=case.get('rot', 0), shift=complex(*case.get('shift', [0, 0])))
+            check_segment(case['shape'], case['scale'], case['config'], acc, rot=case.get('rot', 0), shift=complex(*case.get('shift', [0, 0])), opts=case.get('opts'))
             acc.vlist = [v for v in acc.vlist if v['clause'] == 'not_additive']
         else:
-            check_segment(case['shape'], case['scale'], case['config'], acc, only=[(case['t0'], case['t1'])], rot=case.get('rot', 0), shift=complex(*case.get('shift', [0, 0])))
+            check_segment(case['shape'], case['scale'], case['config'], acc, only=[(case['t0'], case['t1'])], rot=case.get('rot', 0), shift=complex(*case.get('shift', [0, 0])), opts=case.get('opts'))
     finally:
         sp._quad_available = old
     return acc.vlist
